@@ -10,7 +10,6 @@ import (
 	"math/rand"
 	"strings"
 	"testing"
-	"time"
 
 	"github.com/projecteru2/core/resource/plugins/cpumem"
 	"github.com/projecteru2/core/resource/plugins/cpumem/schedule"
@@ -152,7 +151,7 @@ func classifyPanic(g guardResult) string {
 // guarded runs one plugin/planner call; on panic or hang it records (C06) or skips (others).
 func (pr *plannerRun) guarded(c *planCase, what string, f func()) bool {
 	pr.jr.Put(map[string]any{"call": what, "case": c})
-	g := guard(20*time.Second, f)
+	g := guard(guardPatience, f)
 	pr.jr.Clear()
 	if g.panicked {
 		if pr.id == "C06" {
